@@ -97,6 +97,9 @@ type fx struct {
 	retCount    int
 	warnings    []string
 	usedSpecs   map[string]bool
+	localAlloc  map[string]*ssa.Alloc
+	cellRefs    []cellRef
+	curCallee   *ssa.CallCommon
 	keepAllRegs []region
 	localRefs   []string // refs of non-escaping locals of this activation
 	curInstr    ssa.Instruction
@@ -243,7 +246,7 @@ func newFx(g *Gen, fn *ssa.Function, c *Contract, pass int) *fx {
 		written: map[int]map[string]bool{}, havocAllIn: map[int]bool{},
 		vals: map[ssa.Value]*Val{}, freshRefs: map[string]bool{}, closures: map[ssa.Value]*ssa.MakeClosure{},
 		blockPC: map[int]string{}, blockMem: map[int]*memNode{}, headerVal: map[int]map[string]*Val{}, measures: map[int][]string{},
-		hide: c.Hide, ghosts: map[string]*Val{},
+		hide: c.Hide, ghosts: map[string]*Val{}, localAlloc: map[string]*ssa.Alloc{},
 		abstracted: map[string]bool{}, assumptions: map[string]bool{}, calls: map[string]bool{}, trusted: map[string]bool{},
 	}
 	x.memSort["$top"] = "Int"
